@@ -1,0 +1,24 @@
+//go:build verif
+
+package argon2
+
+import "golang.org/x/sys/cpu"
+
+// VerifSetSSE4 switches processBlockSSE between blamkaSSE4 and the generic BLAMKA rounds (package variable
+// useSSE4) for the /verif harness (property C15) and returns the previous value. Turning it on is refused on a
+// CPU without SSE4.1. It has no effect in purego / non-amd64 builds, where processBlockGeneric is always used.
+// Callers must not derive keys concurrently while switching.
+func VerifSetSSE4(on bool) (old bool) {
+	old = useSSE4
+	if on && !cpu.X86.HasSSE41 {
+		return old
+	}
+	useSSE4 = on
+	return old
+}
+
+// VerifDeriveKey exposes deriveKey with the secret and associated-data inputs (and mode 0 = Argon2d) that
+// Key / IDKey do not offer; the RFC 9106 test vectors need them.
+func VerifDeriveKey(mode int, password, salt, secret, data []byte, time, memory uint32, threads uint8, keyLen uint32) []byte {
+	return deriveKey(mode, password, salt, secret, data, time, memory, threads, keyLen)
+}
